@@ -373,7 +373,8 @@ ADDED3 = {
     "C03": "Round 3: _add_timed_switch_handler (one wake-up at the earliest deadline, bounded 0..3 pending), "
            "remove_switch_handler_by_key(s) (exactly the key's switch, callback, state, ms), Switch._post_events / "
            "_post_events_with_recycle / _recycle_passed (events follow the logical state; ignore window), "
-           "BcpInterface._bcp_receive_switch (flip of the logical state).",
+           "BcpInterface._bcp_receive_switch (flip of the logical state). Removal matches every entry registered FOR the "
+           "callback (is_callback relation; defect 6879b7b repaired), native history as finite check.",
     "C04": "Round 3: BallCountHandler._run (loop invariants under a rely: arrivals = rise of the count, lock released per "
            "pass, no silent lowering), BallDevice.lost_idle_ball / lost_incoming_ball / lost_ejected_ball / "
            "handle_mechanical_eject_during_idle (each lost ball added to the ball_missing_target once), BallSearch.give_up "
@@ -382,7 +383,8 @@ ADDED3 = {
            "the first ball that can arrive; bounded: 3 balls in transit).",
     "C06": "Round 3: Game._stop_game_modes / _game_mode_stopped (bounded: 3 modes), BallController._ball_drained_handler "
            "(relay carries the unclaimed balls), Tilt.slam_tilt (always recorded), C11 _ball_ending and C02 Mode.stop "
-           "re-checked.",
+           "re-checked. Game._player_adding_complete (P4) under contract instead of assumed; one player-add request in "
+           "flight at a time (defect c3a53ba repaired).",
     "C07": "Round 3: C06's game stop set and C02's queue relay set re-checked here.",
     "C08": "Round 3: the actuation-site enumeration covers the platform packages; structural obligation: no module touches "
            "another device's switch-off timers ('timed_disable', 'enable_limit_reached').",
@@ -407,7 +409,9 @@ ADDED3 = {
     "C19": "Round 3: _process_command (payload of any length handed on; defect f6d7550 repaired), "
            "BcpTransportManager._receive_loop (each command handled to completion before the next is read).",
     "C20": "Round 3: Credits._game_ended (tier restart re-armed at every game end), SettingsController.get_setting_value "
-           "(C16) re-checked.",
+           "(C16) re-checked. Game.request_player_add / _player_add_request_complete / _player_adding_complete (C06 "
+           "P1-P4: one request in flight at a time; defect c3a53ba repaired) re-checked, three native histories as finite "
+           "checks.",
 }
 
 
